@@ -37,11 +37,15 @@ def int_range(tp):
 
 
 def wrap(v, tp):
-    size, signed = tp
-    v &= (1 << (8 * size)) - 1
-    if signed and v >> (8 * size - 1):
-        v -= 1 << (8 * size)
-    return v
+    """C conversion of the integer v to the type / bit-field tp (gcc: modulo 2^w, signed: two's complement):
+    unsigned: v mod 2^w;  signed: ((v + 2^(w-1)) mod 2^w) - 2^(w-1)."""
+    if tp[0] == "bits":
+        _, w, signed = tp
+    else:
+        w, signed = 8 * tp[0], tp[1]
+    if signed:
+        return ((v + (1 << (w - 1))) % (1 << w)) - (1 << (w - 1))
+    return v % (1 << w)
 
 
 def c_literal(v):
@@ -75,7 +79,8 @@ def gen_value(rng, tp):
     lo, hi = int_range(tp)
     r = rng.random()
     if r < 0.35:
-        return rng.choice([lo, hi, lo + 1, hi - 1, 0, 1, max(lo, -1)])
+        # boundary values, clamped: a 1-bit signed bit-field holds only -1 and 0
+        return rng.choice([c for c in (lo, hi, lo + 1, hi - 1, 0, 1, -1) if lo <= c <= hi])
     if r < 0.6:
         return rng.randint(max(lo, -100), min(hi, 100))
     return rng.randint(lo, hi)
@@ -132,8 +137,11 @@ def make_unit(rng, uid, for_verify=False):
     u["structs"].append({"name": "s%d_%d" % (uid, i), "union": False, "fields": pf, "partial": False, "packed": True})
     if not for_verify:
         # bit-fields inside a checked struct (their positions are computed by cffi, the total size is checked)
-        bt = [rng.choice(["int", "unsigned int", "unsigned char", "short", "long", "unsigned long long"]) for _ in range(3)]
-        bw = [rng.randint(1, min(8 * INTS[t][0], 17)) for t in bt]
+        # b0: any width; b1: ALWAYS a signed 1-bit field (holds -1 and 0 only); b2: ALWAYS the full width of its type
+        bt = [rng.choice(["int", "unsigned int", "unsigned char", "short", "long", "unsigned long long"]),
+              rng.choice(["int", "long", "short", "signed char", "long long"]),
+              rng.choice(["unsigned int", "int", "unsigned char", "short", "unsigned long long", "long"])]
+        bw = [rng.randint(1, min(8 * INTS[bt[0]][0], 17)), 1, 8 * INTS[bt[2]][0]]
         pre, post = rng.choice(INT_NAMES), rng.choice(INT_NAMES)
         body = "%s a; %s b0:%d; %s b1:%d; %s m; %s b2:%d; %s z;" % (pre, bt[0], bw[0], bt[1], bw[1], rng.choice(["char", "short"]),
                                                                    bt[2], bw[2], post)
@@ -725,10 +733,21 @@ def probes_for(rng, unit, orig, facts, skip_structs=(), skip_consts=(), ncalls=6
         for f in int_scalar_fields(unit, s):
             if f["name"] in of and of[f["name"]]["type"] == f["type"] and of[f["name"]]["len"] is None:
                 tp = value_type(unit, f)
-                v = gen_value(rng, tp)
-                P.append((key, {"k": "fwrite", "tag": tag, "sname": s["name"], "field": f["name"], "v": v}, v))
-                v = gen_value(rng, tp)
-                P.append((key, {"k": "fcwrite", "tag": tag, "sname": s["name"], "field": f["name"], "v": v}, v))
+                # Python-side stores: only values the field can hold (cffi accepts them; what it does with values
+                # outside the field is C02/C03's subject); C-side stores: the read-back is the C conversion wrap(v)
+                pyvals = [gen_value(rng, tp)]
+                cvals = [gen_value(rng, tp)]
+                if "bits" in f:
+                    lo, hi = int_range(tp)
+                    pyvals += [lo, hi]
+                    # the setter takes the declared type: values that fit the type but not the field are truncated by C
+                    cvals += [lo, hi, hi + 1, lo - 1, gen_value(rng, resolve_int(unit, f["type"]))]
+                    tlo, thi = int_range(resolve_int(unit, f["type"]))
+                    cvals = [v for v in cvals if tlo <= v <= thi]
+                for v in pyvals:
+                    P.append((key, {"k": "fwrite", "tag": tag, "sname": s["name"], "field": f["name"], "v": v}, wrap(v, tp)))
+                for v in cvals:
+                    P.append((key, {"k": "fcwrite", "tag": tag, "sname": s["name"], "field": f["name"], "v": v}, wrap(v, tp)))
     for c in all_consts(unit):
         if c["name"] in skip_consts:
             continue
